@@ -412,23 +412,6 @@ Example algD_safe_nonvacuous :
 Proof. reflexivity. Qed.
 
 (* ------------------------------------------------------------------ the generated branch chain *)
-(* what each branch of the chain may ask of a sampler, given the final nnz = n, elements = el and
-   the density class dc: executable, also evaluated by the correspondence judge *)
-Definition plan_okb (n el dc : Z) (p : plan) : bool :=
-  match p with
-  | PBase (BAll a) => (a =? el) && ((n =? el) || (1 <=? dc))
-  | PBase (BChoice a k) => (a =? el) && (k =? n) && (n <? 2) && (n <? el)
-  | PBase (BD m a) => (a =? el) && (m =? n) && (2 <=? n) && (10 * n <? el)
-  | PBase (BA m a) => (a =? el) && (m =? n) && (2 <=? n) && (2 * n <=? el) && (el <=? 10 * n)
-  | PRev (BChoice a k) a' => (a =? el) && (a' =? el) && (k =? el - n) && (k =? 1) && (2 <=? n)
-  | PRev (BD m a) a' => (a =? el) && (a' =? el) && (m =? el - n) && (2 <=? m) && (10 * m <? el)
-  | PRev (BA m a) a' =>
-      (a =? el) && (a' =? el) && (m =? el - n) && (2 <=? m) && (2 * m <? el) && (el <=? 10 * m)
-  | PRev (BAll _) _ => false
-  end.
-
-Definition dcv (dc : option Z) : Z := match dc with Some d => d | None => 0 end.
-
 (* every successful run of the generated prefix of `random`: the final nnz is the requested one (or
    the value of int(elements * density)), lies in [0, elements], and the plan is one of the seven
    admissible shapes *)
@@ -586,14 +569,6 @@ Proof.
 Qed.
 
 (* ------------------------------------------------------------------ sparse.random *)
-(* the number of elements the caller asked for: nnz, or int(elements * density) in binary64 *)
-Definition requested (dens : option dyadic) (nnz : option Z) (elements : Z) : Z :=
-  match nnz with
-  | Some k => k
-  | None => let d := match dens with Some d => d | None => density_default end in
-            int_mul_f64 elements (fst d) (snd d)
-  end.
-
 (* the float 1.0 is presented as (1, 0) (what float.as_integer_ratio gives) *)
 Definition one_canonical (dens : option dyadic) : Prop :=
   match dens with Some d => density_class d = 1 -> d = (1, 0) | None => True end.
